@@ -47,4 +47,9 @@ CHECKS = {
                  "independent float64 shadow bit for bit; copies and merges are checked for equality, disjoint-union structure and absence of shared storage; "
                  "inverse pairs and the documented bounding box after normalising are checked.",
          "design_ref": "DESIGN.md section 6 C06", "note": _NOTE, "technique": "runtime monitoring: operation-history monitor with shadow state and alias detection"},
+ "C15": {"text": "Reference-model monitor: border cycles from every border vertex, the list of all cycles and the border polyline (with its index map) "
+                 "are compared with border loops derived from the face list on zoo surfaces with chords, ears and several loops; the feature detector is run "
+                 "on hinge families folded at angles swept on both sides of the two thresholds (down to 1e-7 rad, crease declared hard or not) and on zoo "
+                 "meshes, its edge set compared with a reference dihedral test and its derived data checked for consistency.",
+         "design_ref": "DESIGN.md section 6 C15", "note": _NOTE, "technique": "runtime monitoring: reference-model differential oracle with threshold-sweep workloads"},
 }
